@@ -571,6 +571,8 @@ func (x *Exec) callByContract(ct *Contract, callee *types.Func, n *ast.CallExpr,
 			wv := c.freshVal("wit."+w, wt, nil)
 			penv.names[w] = wv
 			post.ghost[w] = wv // the caller's own contract may name the callee's witness
+			// ... and, when the same callee is called several times, the witness of its k-th call as <w><k>
+			post.ghost[fmt.Sprintf("%s%d", w, c.counts["callsite@"+short])] = wv
 		}
 	}
 	for _, en := range ct.Ensures {
